@@ -231,9 +231,10 @@ def roles_of_connection(F, ci):
                     out['peer_buf_alloc'] = fld
                 elif 'forward_count' in s_:
                     out['peer_fwd_cnt'] = fld
-                elif v[0] == 'bin' and v[1] in ('Add', 'AddWithOverflow') or (v[0] == 'field' and v[1][0] == 'bin') or (v[0] == 'call' and v[2].endswith('wrapping_add')):
-                    if b.get('pub') and 'usize' in b.get('sig', ''):
-                        out['fwd_cnt'] = fld
+                elif b.get('pub') and 'usize' in b.get('sig', '') and n.d.get('pty') == 'u32' and \
+                        derives_from(v, lambda x: x[0] == 'param' and x[1] >= 2) and derives_from(v, lambda x: x[0] in ('load', 'load0')):
+                    # the counter advanced by the number of bytes handed to the application (whatever the arithmetic used)
+                    out['fwd_cnt'] = fld
                 elif F.adts[ci]['variants'][0]['fields'] and n.d['pty'] == 'bool':
                     out['pending'] = fld
     # tx_cnt: the u32 private field that is neither of the above and is incremented in the socket's send
